@@ -248,6 +248,9 @@ def gen_cases(tier, seed):
     return cases
 
 
+UNITS = [1.0, 1.0, 1e-6, 1e-3, 1e3, 1e6, 1e-8, 1.0, 1.0]
+
+
 def _polygon(case, rng):
     from virocon import DirectSamplingContour, IFORMContour, ISORMContour
 
@@ -303,6 +306,10 @@ def _polygon(case, rng):
         P[:, 1] -= float(P[:, 1].max() * rng.uniform(0.3, 2.5)) if P[:, 1].max() > 0 else 1.0
         if rng.random() < 0.5:
             P[:, 0] -= float(P[:, 0].max() * rng.uniform(0.3, 1.5))
+    # units as an input class: the same contour in micro-units or mega-units (an absolute tolerance shows up here)
+    unit = UNITS[int(case["sub"]) % len(UNITS)]
+    if unit != 1.0 and shp not in ("lattice",):
+        P = P * unit
     return P
 
 
@@ -378,7 +385,8 @@ def run_case(case, ctx):
             P[:, xi] = (P[:, xi] - lo) * f + math.floor(lo)
             lo, hi = float(P[:, xi].min()), float(P[:, xi].max())
             rngx = hi - lo
-        ints = [k for k in range(int(math.floor(lo)) - 1, int(math.ceil(hi)) + 2) if np.min(np.abs(P[:, xi] - k)) > 2e-6 * rngx]
+        stride = max(1, int((math.ceil(hi) - math.floor(lo) + 3) // 40))  # (a contour in mega-units spans millions of integers)
+        ints = [k for k in range(int(math.floor(lo)) - 1, int(math.ceil(hi)) + 2, stride) if np.min(np.abs(P[:, xi] - k)) > 2e-6 * rngx]
         if not ints:
             ints = [int(round((lo + hi) / 2))]
         if case["steps"] == "int-list":
@@ -386,7 +394,7 @@ def run_case(case, ctx):
         elif case["steps"] == "int-array":
             steps = np.array(ints, dtype=np.int64)
         else:
-            steps = range(ints[0], ints[-1] + 1)
+            steps = range(ints[0], ints[-1] + 1, stride)
             if any(np.min(np.abs(P[:, xi] - k)) <= 2e-6 * rngx for k in steps):
                 steps = [int(k) for k in ints]
     elif case["steps"] == "vertex-abscissae":
